@@ -143,3 +143,22 @@ Example C16_example :
   n = 10%nat /\ quiescent cw = true /\
   map (fun t => match t with TDoneFg _ (Done (OResp r)) => p_body r | _ => -9 end) (cw_fg cw) = [0; 1].
 Proof. vm_compute. repeat split; reflexivity. Qed.
+
+(* a 304 that arrives after the entry it validated was replaced is dropped: the store stays as it is
+   (the defect repaired by the fix recorded in known_findings.json) *)
+Theorem C16_late_304_not_merged : forall T q stored key f cc w delay plain cond rest r own,
+  w_script w = (delay, plain, cond) :: rest ->
+  (if negb (beq (hget (bs "If-None-Match") (q_hdr q)) []) || negb (beq (hget (bs "If-Modified-Since") (q_hdr q)) [])
+   then cond else plain) = RResp r ->
+  p_status r = 304 -> delay <= T ->
+  get_entry (w_store w) (e_id stored) = Some own ->
+  sent_validators_of (q_hdr q) (e_hdr own) = false ->
+  w_store (snd (run (Some T) (background_revalidate q stored key f cc) w)) = w_store w.
+Proof.
+  intros T q stored key f cc w delay plain cond rest r own Hs Hrep H304 HT Hown Hval.
+  unfold background_revalidate, round_trip_timed. cbn [run]. unfold do_origin. rewrite Hs, Hrep.
+  replace (T <? delay) with false by lia. cbn [tag_reply]. cbn [run w_clock w_store log_event set_store].
+  rewrite Hown. cbn [with_hdr p_status]. rewrite H304. cbn [Z.eqb Pos.eqb andb]. rewrite Hval. cbn [negb run].
+  reflexivity.
+Qed.
+Print Assumptions C16_late_304_not_merged.
